@@ -524,6 +524,8 @@ def derive_atoms(guards) -> set:
                 for x, xp in ops:
                     # value of the operand x (with its own polarity folded)
                     known = [t for (a, t) in facts if a == x]
+                    if not known and x[0] == "const":
+                        known = [bool(x[1])]  # a constant operand is known by itself
                     if not known:
                         undecided.append((x, xp))
                         continue
